@@ -17,7 +17,7 @@ ID = "C03"
 TITLE = "descriptor before record, per stream"
 LEVEL = "exploration"
 RULE = (
-    "a fixed set of 19 record makers: an identifier-coincident pair (same name, same 32-bit hash, different fields), a "
+    "a fixed set of 21 record makers: an identifier-coincident pair (same name, same 32-bit hash, different fields), a "
     "same-name/different-fields pair (different hash), a holder whose inner type occurs only nested in a 'record' field, a "
     "holder with a record[] field whose elements are of the coincident types, a grouped record whose member types occur only "
     "there, a grouped record with members of the same-name pair, a keyword-field type, a grouped record with the same group name and flat field list as another one but other member types, a type whose records can fail while being packed (good and failing variant: the failing write raises and the application carries on), a grouped record with a member of a coincident type, two grouped records of one group name whose members differ only in a field type, name twins ('/' versus '_'), a descriptor cloned under a new name by the deprecated constructor form, a field-less marker type (plain and nested).  Histories: EXHAUSTIVE over all write "
@@ -40,9 +40,9 @@ BUDGET_S = {"quick": 200, "thorough": 1200}
 ANCHORS = ["flow.record.packer:RecordPacker.register", "flow.record.packer:RecordPacker.pack_obj", "flow.record.stream:RecordStreamWriter.on_new_descriptor",
            "flow.record.jsonpacker:JsonRecordPacker.register", "flow.record.adapter.jsonfile:JsonfileWriter.packer_on_new_descriptor"]
 
-NMAKERS = 19
+NMAKERS = 21
 BAD_MAKERS = {11}  # writing this record is expected to RAISE (unpackable value); the application carries on
-NONTRIVIAL_ALONE = {4, 5, 6, 7, 9, 12}
+NONTRIVIAL_ALONE = {4, 5, 6, 7, 9, 12, 19, 20}
 
 
 def makers():
@@ -73,6 +73,9 @@ def makers():
     assert C.identifier  # the source's hash is computed before it is cloned
     CL = RecordDescriptor("clone/of", C)
     EM = RecordDescriptor("marker/empty", [])
+    N1 = RecordDescriptor("nested/mem1", [("string", "p")])
+    N2 = RecordDescriptor("nested/mem2", [("varint", "q")])
+    N3 = RecordDescriptor("nested/mem3", [("string", "r")])
 
     def mk(d, **kw):
         return d.recordType(_generated=g, **kw)
@@ -104,6 +107,10 @@ def makers():
         lambda i: mk(CL, a="cl%d" % i),
         # 18: a type without fields (marker record), also nested in a holder
         lambda i: mk(H, sub=mk(EM), tag="e%d" % i) if i % 2 else mk(EM),
+        # 19 / 20: a GROUPED record inside a record / record[] field; its member types occur nowhere else, so their
+        # descriptors must be announced on behalf of the holder's frame
+        lambda i: mk(H, sub=GroupedRecord("grp/nested", [mk(N1, p="n%d" % i), mk(N2, q=i)]), tag="g%d" % i),
+        lambda i: mk(L, subs=[GroupedRecord("grp/inlist", [mk(N3, r="l%d" % i)]), mk(In, v=i)], n=(i + 2) % 65536),
     ]
 
 
@@ -158,7 +165,7 @@ def flat_obs(g):
 
 
 MAKER_NAMES = {0: "t/x", 1: "t/x", 2: "same/name", 3: "same/name", 4: "holder/rec", 5: "holder/list", 6: "grp/only", 7: "grp/same", 8: "kw/type",
-               9: "grp/only", 10: "bad/able", 12: "grp/co", 13: "grp/t", 14: "grp/t", 15: "tw/in/x", 16: "tw/in_x", 17: "clone/of"}
+               9: "grp/only", 10: "bad/able", 12: "grp/co", 13: "grp/t", 14: "grp/t", 15: "tw/in/x", 16: "tw/in_x", 17: "clone/of", 19: "holder/rec", 20: "holder/list"}
 
 
 def created_with_ok(m, rec):
@@ -173,9 +180,28 @@ def created_with_ok(m, rec):
 def expected_obs(rec, fmt):
     from flow.record import GroupedRecord
 
-    if fmt == "json" and isinstance(rec, GroupedRecord):
-        return observe.normalise(flat_obs(rec))
+    if fmt == "json":
+        return observe.normalise(json_view(rec))
     return observe.normalise(observe.obs(rec))
+
+
+def json_view(rec):
+    """Observation of a record as the JSON adapter stores it: a grouped record - at top level or inside a record /
+    record[] field - is stored as ONE flat record of the grouped descriptor."""
+    from flow.record import GroupedRecord, Record
+
+    def jval(v):
+        if isinstance(v, (GroupedRecord, Record)):
+            return json_view(v)
+        o = observe.oval(v)
+        if isinstance(v, list) and isinstance(o, list) and o and o[0] == "list":
+            return ["list", o[1], [jval(x) for x in v]]
+        return o
+
+    if isinstance(rec, GroupedRecord):
+        return flat_obs(rec)
+    d = observe.desc_obs(rec._desc)
+    return ["rec", d[0], d[1], [[k, jval(getattr(rec, k))] for k in rec.__slots__]]
 
 
 # ---- writers --------------------------------------------------------------------------------------
